@@ -195,6 +195,9 @@ PRELUDE = ['def line-matcher LM = contents matches x', 'def path HP = -rel-home 
            # strings built from several symbols, a path symbol first / second / at depth two
            'def string IND1 = "@[HP]@-@[S]@"', 'def string IND2 = "@[S]@-@[HP]@"', 'def string IND3 = "@[S]@@[S]@@[IND2]@"']
 PHASES = ('setup', 'before-assert', 'assert', 'cleanup')
+# how the test case is run: a plain run, the `symbol` command, and the two other output modes (round 5: C03-r5m2 skipped the
+# pre-sandbox validation of [before-assert] / [assert] under --act)
+K3_MODES = ('plain', 'symbol', '--act', '--keep')
 
 # (name, defective line, expected identifiers, extra)
 DEFECTS = (
@@ -206,6 +209,13 @@ DEFECTS = (
     ('undefined-symbol-in-program-arg', '% echo @[UNDEFINED_SYM]@', ('VALIDATION_ERROR',), None),
     ('symbol-defined-later', 'file u.txt = @[LATER]@', ('VALIDATION_ERROR',), 'later'),
     ('symbol-defined-twice', "def string S = again", ('VALIDATION_ERROR',), None),
+    # a definition that refers to the symbol it defines (round 5: C03-r5m1 entered the definition into the table before its own
+    # references were checked)
+    ('symbol-refers-to-itself', 'def string SELF = @[SELF]@', ('VALIDATION_ERROR',), None),
+    ('symbol-refers-to-itself-inside-text', 'def string SELF2 = "prefix @[SELF2]@ suffix"', ('VALIDATION_ERROR',), None),
+    ('list-symbol-refers-to-itself', 'def list SELFL = a @[SELFL]@ b', ('VALIDATION_ERROR',), None),
+    ('path-symbol-relative-to-itself', 'def path SELFP = -rel SELFP x', ('VALIDATION_ERROR',), None),
+    ('symbols-refer-to-each-other', 'def string CYC1 = @[CYC2]@\ndef string CYC2 = @[CYC1]@', ('VALIDATION_ERROR',), None),
     ('wrong-symbol-type', 'file u.txt = @[LM]@', ('VALIDATION_ERROR',), None),
     ('wrong-symbol-type-matcher', 'def line-matcher LM2 = S', ('VALIDATION_ERROR',), None),
     ('illegal-relativity-via-symbol', "file @[HP]@/y.txt = 'c'", ('VALIDATION_ERROR',), None),
@@ -322,7 +332,7 @@ class _SubprocessStub:
 _MP = {}
 
 
-def run_cli(text: str, symbol_cmd: bool):
+def run_cli(text: str, symbol_cmd: bool, option: str = None):
     """Runs the REAL main program in process on a test-case file holding `text`."""
     import io
     from vsym import scratch
@@ -361,7 +371,7 @@ def run_cli(text: str, symbol_cmd: bool):
     _SubprocessStub.calls = []
     cwd = os.getcwd()
     before = sorted(os.listdir(case_dir))
-    argv = (['symbol'] if symbol_cmd else []) + [path]
+    argv = (['symbol'] if symbol_cmd else []) + ([option] if option else []) + [path]
     exc = None
     try:
         rc = mp.execute(argv, StdOutputFiles(out, err))
@@ -375,9 +385,9 @@ def run_cli(text: str, symbol_cmd: bool):
                 process_starts=n_calls, sandboxes=len(roots), home_changed=(before != after))
 
 
-def _pre_k3(d: int, ph: int, pos: int, sym: bool) -> bool:
+def _pre_k3(d: int, ph: int, pos: int, sym: int) -> bool:
     nd = len(ACT_DEFECTS if ob.case()['act'] else DEFECTS)
-    if not (0 <= d < nd and 0 <= ph < len(PHASES) and 0 <= pos <= 2):
+    if not (0 <= d < nd and 0 <= ph < len(PHASES) and 0 <= pos <= 2 and 0 <= sym < len(K3_MODES)):
         return False
     if ob.case()['act'] and (ph != 0 or pos != 0):
         return False
@@ -393,7 +403,7 @@ def _pre_k3(d: int, ph: int, pos: int, sym: bool) -> bool:
     return True
 
 
-def k3_invalid_case(d: int, ph: int, pos: int, sym: bool) -> bool:
+def k3_invalid_case(d: int, ph: int, pos: int, sym: int) -> bool:
     """
     pre: _pre_k3(d, ph, pos, sym)
     post: _
@@ -402,17 +412,20 @@ def k3_invalid_case(d: int, ph: int, pos: int, sym: bool) -> bool:
     defect = ob.pick(ACT_DEFECTS if act else DEFECTS, d)
     phase = ob.pick(PHASES, ph)
     pos = ob.concrete_int(pos, 0, 2)
-    sym = ob.concrete_bool(sym)
+    mode = ob.pick(K3_MODES, sym)   # (a bool is accepted: False = plain run, True = `symbol` command)
+    sym = mode == 'symbol'
     text = case_text(defect, phase, pos)
     if ob.case().get('oracle_bug'):
         text = case_text(('valid', [BASE['act'][0]], (), None), phase, pos)
     with ob.untraced():   # every selector is concrete by now
-        r = run_cli(text, sym)
+        r = run_cli(text, sym, mode if mode.startswith('--') else None)
     no_effects = (r['exc'] is None and r['process_starts'] == 0 and r['sandboxes'] == 0 and not r['home_changed'])
     if sym:
         # `exactly symbol FILE` reports without executing anything (whatever it reports)
         return ob.post(no_effects)
-    return ob.post(no_effects and r['rc'] == 65 and r['ident'] in defect[2])
+    # the identifier is printed on stdout by a plain run and on stderr under --keep / --act (C02)
+    ident = r['ident'] if mode == 'plain' else r['stderr'].split('\n')[0]
+    return ob.post(no_effects and r['rc'] == 65 and ident in defect[2] and (mode == 'plain' or r['stdout'] == ''))
 
 
 # ----------------------------------------------------------------------------- K4: the cases of a suite
@@ -568,7 +581,7 @@ def obligations(tier: str) -> List[Ob]:
         obs.append(Ob(name='K3:cli:%s' % '+'.join(d[0] for d in DEFECTS[lo:hi]), fn='k3_invalid_case',
                       case=dict(act=False, range=(lo, hi)), kernel='K3', selector=True,
                       bound='defects %s inserted into each of %s at position first / second / last of the phase; '
-                            'plain run and `symbol` command' % ([d[0] for d in DEFECTS[lo:hi]], list(PHASES)),
+                            'plain run, `symbol` command, --act and --keep' % ([d[0] for d in DEFECTS[lo:hi]], list(PHASES)),
                       timeout=2400, real=REAL_K3,
                       stubs=('subprocess module at process_executor / preprocessor: recording stub that starts nothing',
                              'counting sandbox resolver (MainProgram constructor argument)', 'in-memory stdout/stderr',
@@ -578,7 +591,7 @@ def obligations(tier: str) -> List[Ob]:
                       outside=('effects through channels other than processes, the sandbox and the home directory',)))
     obs.append(Ob(name='K3:cli:act-phase', fn='k3_invalid_case', case=dict(act=True, range=(0, len(ACT_DEFECTS))),
                   kernel='K3', selector=True,
-                  bound='act-phase defects %s; plain run and `symbol` command' % [d[0] for d in ACT_DEFECTS],
+                  bound='act-phase defects %s; plain run, `symbol` command, --act and --keep' % [d[0] for d in ACT_DEFECTS],
                   timeout=1200, real=REAL_K3, entry='MainProgram.execute'))
     obs.append(Ob(name='K3:seeded-oracle-error', fn='k3_invalid_case', case=dict(act=True, range=(0, 1), oracle_bug=True),
                   kernel='K3', selector=True, bound='seeded: a valid case is claimed to be rejected', timeout=600,
